@@ -223,3 +223,16 @@ def lit(node, default=None):
         return ast.literal_eval(node)
     except Exception:
         return default
+
+
+def ret_value(fn: ast.FunctionDef, ret: ast.Return):
+    """the expression a `return` hands back, looking through one local temporary: `rv = f(x); return rv` is `return f(x)` when `rv`
+    is bound exactly once in the function (rules that recognise a call form in a return must not depend on such a temporary)"""
+    v = ret.value
+    if isinstance(v, ast.Name):
+        defs = [s for s in ast.walk(fn) if isinstance(s, (ast.Assign, ast.AnnAssign, ast.AugAssign))
+                and any(isinstance(t, ast.Name) and t.id == v.id for t in (s.targets if isinstance(s, ast.Assign) else [s.target]))]
+        loops = [l for l in ast.walk(fn) if isinstance(l, (ast.For, ast.comprehension)) and any(isinstance(x, ast.Name) and x.id == v.id for x in ast.walk(l.target))]
+        if len(defs) == 1 and not loops and isinstance(defs[0], ast.Assign) and len(defs[0].targets) == 1 and v.id not in {a.arg for a in fn.args.args + fn.args.kwonlyargs}:
+            return defs[0].value
+    return v
